@@ -140,6 +140,33 @@ def wf_wait_timeout(timeout: float) -> Any:
     return make_workflow("WaitTimeout", [make_step("ask", [StartEvent], [StopEvent], ask)])
 
 
+def wf_retry_chain(delay: float, fails: int = 3) -> Any:
+    """the step fails ``fails`` times in a row: that many consecutive retry delays, no client event in between"""
+    async def flaky(self, ctx, ev, inv):  # noqa: ANN001
+        n = ctx.retry_info().retry_number
+        if n < fails:
+            raise RuntimeError(f"fail{n}")
+        return StopEvent(result=f"retried:{n}")
+
+    return make_workflow("RetryChain", [make_step("flaky", [StartEvent], [StopEvent], flaky,
+                                                  retry_policy=retry_policy(wait=wait_fixed(delay), stop=stop_after_attempt(fails + 2)))])
+
+
+def wf_wait_chain(timeout: float, rounds: int = 3) -> Any:
+    """the step polls ``rounds`` times in a row, each wait ends with its TimeoutError"""
+    async def ask(self, ctx, ev, inv):  # noqa: ANN001
+        n = 0
+        for i in range(rounds):
+            try:
+                r = await ctx.wait_for_event(Resp, waiter_id=f"w{i}", timeout=timeout)
+                return StopEvent(result=f"answered:{r.uid}")
+            except TimeoutError:
+                n += 1
+        return StopEvent(result=f"timed-out:{n}")
+
+    return make_workflow("WaitChain", [make_step("ask", [StartEvent], [StopEvent], ask)])
+
+
 def query_handler(loop: Any, store: Any, hid: str = "h1") -> Any:
     async def q() -> Any:
         hs = await store.query(HandlerQuery(handler_id_in=[hid]))
